@@ -161,6 +161,19 @@ def gen_c07(ctx):
                                   phases=[[req(0, 0, reg=100, count=cnt), req(1, 20000, reg=300, count=cnt)]])
                         if framing == 'aa55': sc['framing'] = 'aa55'
                         out.append(sc)
+    # register contents that look like protocol bytes: every register holds 0xAA55 (the response header), 0xF703, 0xFFFF, 0x0000 -- a remainder then
+    # starts with header-like bytes at every even split point
+    for pay in ('aa55', 'f703', 'ffff', '0000', '55aa'):
+        for framing in ('udp', 'tcp', 'aa55'):
+            kind = 'tcp' if framing == 'tcp' else 'udp'
+            cnt = 4
+            flen = 2 * cnt + (7 if framing == 'udp' else 9)
+            hdr = 5 if framing == 'udp' else 9
+            for k in (range(hdr, flen) if (ctx.deep or pay == 'aa55') else (hdr, hdr + 2, hdr + 3)):
+                sc = base(kind, k % 2 == 0, 2, [dict(frag=k, delay=0.3, second='exact')], default='N', phases=[[req(0, 0, reg=100, count=cnt), req(1, 20000, reg=300, count=cnt)]])
+                sc['payload'] = pay
+                if framing == 'aa55': sc['framing'] = 'aa55'
+                out.append(sc)
     # Modbus/TCP answers whose MBAP length field is wrong (known firmware quirk, the library ignores the field), split in two
     for delta in (1, -1, 3, 250):
         for cnt in (1, 5):
@@ -238,6 +251,18 @@ def gen_c10(ctx):
                 out.append(base(k, ka, r, fail, default='N', phases=[seq_reqs(3)], final_polite=True))
                 out.append(base(k, ka, r, fail, default='N', phases=[seq_reqs(2), [req(5)]], final_polite=True))
             out.append(base(k, ka, 1, 'N', default='N', phases=[[req(0), dict(op='close', at=20000, k=1), req(2, 40000)]], final_polite=True))
+    # a request that starts shortly after an answer that arrived in two pieces (or late), and is itself answered completely but late in time: whatever
+    # the earlier request left armed must not touch it -- one transmission, success, and with keep-alive on the same transport
+    for k in ('udp', 'tcp'):
+        for ka in (False, True):
+            for r in (0, 2):
+                for first in (dict(frag=(6 if k == 'udp' else 10), delay=0.25, second='exact'), dict(frag=(8 if k == 'udp' else 12), delay=0.5, second='exact'), dict(late=0.5), 'N'):
+                    for gap in ((300, 700) if not ctx.deep else (300, 500, 700, 900)):
+                        for late in (0.6, 0.9):
+                            d = first.get('delay', first.get('late', 0)) if isinstance(first, dict) else 0
+                            if gap <= d * 1000: continue
+                            out.append(base(k, ka, r, [first, dict(late=late)], default='N', in_time=True, final_polite=True,
+                                            phases=[[req(0, 0, reg=100, count=4), req(1, gap, reg=300, count=4), req(2, 20000, reg=500, count=2)]]))
     return out
 
 
@@ -262,6 +287,12 @@ def gen_c02(ctx):
         for ls in ('N', 'DN', 'GN', 'HN', 'SN', 'UN', 'XN', 'AN', 'LN', 'BN', 'dN'):
             if len(ls) - 1 > r: continue
             out.append(base(k, ka, r, ls, default='N', phases=[seq_reqs(3)]))
+    # every kind of request answered at once with its conforming response: read, single-register write, multi-register write
+    for (k, ka, r) in configs(ctx.deep):
+        for what in ('write', 'multi', 'read'):
+            for ls in ('N', 'DN'):
+                if len(ls) - 1 > r: continue
+                out.append(base(k, ka, r, ls, default='N', phases=[[req(0, 0, reg=47510, count=5, what=what), req(1, 20000, reg=45127, count=1, what=what)]]))
     for sc in out:
         if sc['kind'] == 'udp' and 'framing' not in sc and ctx.rng.random() < 0.3: sc['framing'] = 'aa55'
     return out
@@ -279,7 +310,20 @@ def gen_c03(ctx):
     return out
 
 
-GEN = dict(C02=gen_c02, C03=gen_c03, C01=lambda ctx: gen_c04(ctx)[::2] + gen_c07(ctx)[::3], C04=gen_c04, C05=gen_c05, C06=gen_c06, C07=lambda ctx: gen_c07(ctx) + gen_stale(ctx), C08=gen_c08,
+def gen_c01(ctx):
+    out = gen_c04(ctx)[:: (6 if not ctx.deep else 2)] + gen_c07(ctx)[:: (8 if not ctx.deep else 3)]
+    # the answer arrives glued to a well-formed answer to another request; alone, after a lost transmission, after a late one
+    for (k, ka, r) in configs(ctx.deep):
+        for ls in ('k', 'Dk', 'Ak', 'kN', 'gk'):
+            if len(ls) - 1 > r and ls != 'kN': continue
+            for what in ('read', 'write', 'multi'):
+                out.append(base(k, ka, max(r, 1), ls, default='N', phases=[[req(0, 0, reg=47510, count=1, what=what), req(1, 20000, reg=35100, count=4)]]))
+    for sc in out:
+        if sc['kind'] == 'udp' and 'framing' not in sc and ctx.rng.random() < 0.2: sc['framing'] = 'aa55'
+    return out
+
+
+GEN = dict(C02=gen_c02, C03=gen_c03, C01=gen_c01, C04=gen_c04, C05=gen_c05, C06=gen_c06, C07=lambda ctx: gen_c07(ctx) + gen_stale(ctx), C08=gen_c08,
            C09=gen_c09, C10=gen_c10)
 
 
